@@ -35,7 +35,10 @@ class AccumulateIntegerGrid(Contract):
         self.index, self.mv, self.F = Int("index"), Int("max_val"), z3.Bool("force_L1_norm")
         self.E0, self.ACC0, self.AN0 = z3.Const("entry0", ARR), z3.Const("acc0", ArraySort(IntSort(), ARR)), Int("acc_len0")
         st.assume(D >= 1, 0 <= self.index, self.index <= D, self.mv >= 0, self.AN0 >= 0)
-        st.env.update({"self": Obj("_GridGenerator", {"dim": D, "force_L1_norm": self.F, "neg_allowed": Abstract("neg"), "entry": self.E0, "accumulator": Abstract("acc")}),
+        nu = Int("n_units")          # the total budget of the top-level call (an attribute some versions keep on the object); the REMAINING budget is max_val
+        st.assume(self.mv <= nu)
+        st.env.update({"self": Obj("_GridGenerator", {"dim": D, "force_L1_norm": self.F, "neg_allowed": Abstract("neg"), "entry": self.E0, "accumulator": Abstract("acc"),
+                                                      "n_units": nu}),
                        "index": self.index, "max_val": self.mv})
         st.ghost.update({"ACC": self.ACC0, "AN": self.AN0})
 
@@ -116,3 +119,28 @@ class AccumulateIntegerGrid(Contract):
         if status != "return":
             return [("no_exception", BoolVal(False))]
         return self.state_ok(st)
+
+
+    def replay(self, ob, r):
+        """native check on the real generator: every integer grid entry of build_integer_grid(n_units) has L1 norm <= n_units (dimensions 1..4, with and without
+        negative coordinates and the forced-L1 mode), entries are pairwise different"""
+        import itertools
+        import numpy as np
+        import pandas as pd
+        from fairlearn.reductions._grid_search._grid_generator import _GridGenerator
+        for dim, n_units, force in itertools.product((1, 2, 3, 4), (1, 2, 3), (False, True)):
+            for neg in itertools.product((False, True), repeat=dim):
+                g = _GridGenerator.__new__(_GridGenerator)
+                g.dim, g.neg_allowed, g.force_L1_norm = dim, np.array(neg), force
+                try:
+                    grid = [np.asarray(e) for e in g.build_integer_grid(n_units)]
+                except Exception as ex:
+                    return {"confirmed": True, "key": "C09:grid:integer-grid-raises", "what": f"build_integer_grid({n_units}) raised {type(ex).__name__}: {ex}"[:200], "replay": {"dim": dim, "neg_allowed": list(neg)}}
+                bad = [e.tolist() for e in grid if np.abs(e).sum() > n_units or any(v < 0 and not a for v, a in zip(e, neg))]
+                dup = len({tuple(e.tolist()) for e in grid}) != len(grid)
+                if bad or dup:
+                    return {"confirmed": True, "key": "C09:grid:L1" if bad else "C09:grid:duplicates",
+                            "what": f"_GridGenerator.build_integer_grid(n_units={n_units}) in dimension {dim} (neg_allowed={list(neg)}, force_L1_norm={force}) produced "
+                                    + (f"the entry {bad[0]} with L1 norm {int(np.abs(np.array(bad[0])).sum())} > {n_units} (or a forbidden negative coordinate)" if bad else "duplicate entries"),
+                            "replay": {"dim": dim, "n_units": n_units, "neg_allowed": list(neg), "force_L1_norm": force, "bad_entries": bad[:5]}}
+        return {"confirmed": False}
